@@ -231,7 +231,13 @@ def run_book(ctx, bi, far):
     # a data-only sheet with a ragged bottom edge (column A is the longest, each column further right ends earlier, nothing is
     # stored right of them): whole-column areas over it must keep the rows in which only the left columns hold values
     if not far:
-        rsi = ns
+        if rng.random() < 0.5:
+            # a worksheet without a single cell in front of the referenced one: every sheet keeps its own number
+            data.append({})
+            sheets.append({})
+            titles.append('Spare')
+            r.count('books_with_empty_worksheet_in_front')
+        rsi = len(sheets)
         ragged = {}
         heights = sorted([rng.randrange(3, 14) for _ in range(4)], reverse=True)
         for c, h in enumerate(heights, start=1):
@@ -316,6 +322,8 @@ def run_book(ctx, bi, far):
         for (rr, cc), v in sheets[si].items():
             cells[addr(rr, cc)] = v
         spec_sheets.append(wbspec.sheet(titles[si], cells))
+        if si > 0 and rng.random() < 0.15:
+            spec_sheets[-1]['state'] = rng.choice(['hidden', 'veryHidden'])
     # INDEX formulas were placed with None: fill them in
     for fm in forms:
         if fm['kind'] == 'INDEX':
